@@ -25,6 +25,7 @@ func init() {
 			"R5 sweep cursor: in the RAM-minus-sections sweep (the two-list function of package ovmf), every advance of the section cursor that is shared by all RAM banks is dominated, within the iteration, by the edge `section empty` or `value computed from the section <= a field of the current bank` — the invariant the function states in its own comment; this decides that one clause of the interval subtraction, not the subtraction. " +
 			"R6 (= C06.R8, TDX constructs) the launch options of each measurement inside the shape loop are set in that iteration: a legacy/early-accept setting does not leak into another configuration's MRTD. " +
 			"R8 (= C08.T14) the loop that builds the material regions appends exactly one region per declared section on every path, so the index saved for the TD HOB section addresses the TD HOB region. " +
+			"R9 launch mode dispatch (ESP with the two LaunchOptions flags): tdx.MRTD reaches the early-accept extractor only with DisableUnacceptedMemory true, the legacy measure-all extractor only with it false and MeasureAllRegions true, the default extractor only with both false. " +
 			"R7 no write in the closure of tdx.MRTD / tdx.UnsignedTDX goes to a package-level variable. " +
 			"Not covered: the SHA-384 stream contents, the interval subtraction that derives unaccepted memory, RAM-bank table values (numeric clauses).",
 		Assumptions: []string{"go/types, go/ssa, VTA call graph"},
@@ -36,6 +37,67 @@ func runC05(c *Ctx) {
 	// R8 = C08.T14: the region list built from the declared sections stays in step with the section list (the TD
 	// hand-off block is generated for the region at the index saved for the TD HOB section).
 	c.borrow("R8/C08.", runC08, func(rule, _ string) bool { return rule == "T14" })
+	// R9: launch mode → region extraction. tdx.MRTD hands the image to exactly the extractor of the requested launch
+	// mode (table confirmed against the three exported ovmf entry points and the LaunchOptions documentation):
+	//   DisableUnacceptedMemory            → ExtractMaterialGuestPhysicalRegionsNoUnacceptedMemory (early accept)
+	//   ¬DisableUnacceptedMemory ∧ MeasureAllRegions → ExtractMaterialGuestPhysicalRegionsTDHOBBug   (legacy measure-all)
+	//   neither                            → ExtractMaterialGuestPhysicalRegions                      (default)
+	if mrtd := c.P.Func("tdx", "MRTD"); mrtd != nil {
+		tdxPkg := repoPath("tdx")
+		region := map[*ssa.Function]bool{}
+		for _, g := range unexportedRegion(mrtd) {
+			if g != mrtd {
+				region[g] = true
+			}
+		}
+		ext := map[*ssa.Function]int{}
+		for i, n := range []string{"ExtractMaterialGuestPhysicalRegionsNoUnacceptedMemory", "ExtractMaterialGuestPhysicalRegionsTDHOBBug", "ExtractMaterialGuestPhysicalRegions"} {
+			if f := c.fn("R9", "ovmf", n); f != nil {
+				ext[f] = i
+			}
+		}
+		nExt := 0
+		r := &esp.Rule{Name: "C05.R9"}
+		r.Relevant = func(g *ssa.Function) bool { return region[g] }
+		r.Flag = func(v ssa.Value) (int, bool) {
+			return boolFieldFlag(v, tdxPkg, "LaunchOptions", "DisableUnacceptedMemory", "MeasureAllRegions")
+		}
+		r.Match = func(in ssa.Instruction) []esp.Ev {
+			if call, ok := in.(ssa.CallInstruction); ok {
+				if i, ok := ext[call.Common().StaticCallee()]; ok {
+					nExt++
+					return []esp.Ev{{ID: i, Name: callName(call), ErrIdx: -1, BoolIdx: -1}}
+				}
+			}
+			return nil
+		}
+		r.Step = func(x *esp.Ctx, s esp.State, ev esp.Ev, ph esp.Phase) (esp.State, string) {
+			if ph != esp.AtCall {
+				return s, ""
+			}
+			early, all := s.Flag(0), s.Flag(1)
+			ok := false
+			switch ev.ID {
+			case 0:
+				ok = early == esp.NonZero
+			case 1:
+				ok = early == esp.Zero && all == esp.NonZero
+			case 2:
+				ok = early == esp.Zero && all == esp.Zero
+			}
+			if !ok {
+				return s, fmt.Sprintf("R9: %s is reached with DisableUnacceptedMemory %s and MeasureAllRegions %s: the regions (and the TD hand-off block's early-accept attributes) are those of another launch mode than the one requested", ev.Name, early, all)
+			}
+			return s, ""
+		}
+		e := c.engine(r)
+		e.Run(mrtd, esp.State{})
+		n := c.reportEngine(e, "R9", func(v *esp.Violation) string { return "tdx.MRTD:launch mode → extractor" })
+		c.S.Floor("R9", "region extraction calls reached from tdx.MRTD", 3, nExt)
+		if n == 0 {
+			c.S.OK("R9", "tdx.MRTD:launch mode → extractor", c.pos(mrtd.Pos()), fmt.Sprintf("each extractor is reached only under its launch mode (%d configurations)", e.Configs), true)
+		}
+	}
 	// R7: the MRTD computation keeps no package-level state
 	c.noGlobalWrites("R7", c.P.Func("tdx", "MRTD"))
 	c.noGlobalWrites("R7", c.P.Func("tdx", "UnsignedTDX"))
